@@ -233,6 +233,10 @@ def run_history(case, d, want_regen=True):
             res = call(lambda: ra.metadata.update(op['value']))
         elif k == 'metaop':
             md = ra.metadata
+            try:
+                extra['nkeys_before'] = len(dict(md))
+            except Exception:
+                extra['nkeys_before'] = -1
             m, key, val = op['method'], op.get('key', 'a'), op.get('value', 1)
             f = {'update': lambda: md.update({key: val}), 'setitem': lambda: md.__setitem__(key, val),
                  'pop': lambda: md.pop(key), 'popitem': lambda: md.popitem(),
